@@ -23,10 +23,11 @@ enum SOp {
     Named(&'static str),
     ParsePrint,
     EgAdd,
+    EgMatch,
 }
 
 // the last four are numerals at / beyond what the slot encoding (index * 4 + kind in a u32) can hold
-const NAMES: [&str; 23] = ["x", "y", "f", "f0", "f1", "f2", "f7", "fx", "0", "1", "7", "00", "07", "+7", "f07", "f+7", "ff1", "", "é", "1073741824", "4294967295", "f1073741823", "f1073741824"];
+const NAMES: [&str; 20] = ["x", "f", "f0", "f1", "f7", "fx", "0", "7", "00", "07", "+7", "f07", "f+7", "ff1", "", "é", "1073741824", "4294967295", "f1073741823", "f1073741824"];
 
 fn alphabet() -> Vec<SOp> {
     let mut v = vec![SOp::Fresh];
@@ -38,6 +39,7 @@ fn alphabet() -> Vec<SOp> {
     }
     v.push(SOp::ParsePrint);
     v.push(SOp::EgAdd);
+    v.push(SOp::EgMatch);
     v
 }
 
@@ -48,6 +50,7 @@ fn show(op: &SOp) -> String {
         SOp::Named(s) => format!("named({s:?})"),
         SOp::ParsePrint => "parse(print(last))".into(),
         SOp::EgAdd => "egraph-add(f last prev)".into(),
+        SOp::EgMatch => "egraph-match((b (var S) ?y) against (b (var last) (var prev)), S spelled like the class's own slots)".into(),
     }
 }
 
@@ -180,6 +183,69 @@ fn run_seq(ops: &[SOp]) -> (Vec<Fail>, u64, u64, u64) {
                     }
                 }
             }
+            SOp::EgMatch => {
+                if order.len() < 2 || order[order.len() - 1] == order[order.len() - 2] {
+                    continue;
+                }
+                use crate::sym::Sym;
+                let a = order[order.len() - 1];
+                let b = order[order.len() - 2];
+                evals += 1;
+                goals |= 8;
+                let r = catch(|| {
+                    let mut eg = EGraph::<Sym>::default();
+                    let va = eg.add(Sym::Var(a));
+                    let vb = eg.add(Sym::Var(b));
+                    let id = eg.add(Sym::B(va, vb));
+                    let mut spellings: Vec<Slot> = eg.slots(id.id).iter().copied().collect();
+                    spellings.push(a);
+                    spellings.push(Slot::named("zz9"));
+                    let mut out: Vec<(Slot, usize, Vec<Slot>, bool, usize, Vec<Slot>)> = Vec::new();
+                    for sp in spellings {
+                        // single pattern (b (var S) ?y): exactly one match (S := last), ?y carries a slot that is none of ours
+                        let pat: Pattern<Sym> = Pattern::ENode(Sym::B(AppliedId::null(), AppliedId::null()), vec![Pattern::ENode(Sym::Var(sp), vec![]), Pattern::PVar("y".to_string())]);
+                        let ms = ematch_all(&eg, &pat);
+                        let ys: Vec<Slot> = ms.iter().flat_map(|m| m["y"].slots().into_iter()).collect();
+                        let represented = ms.iter().all(|m| {
+                            let y = m["y"].clone();
+                            let v = eg.lookup(&Sym::Var(sp));
+                            match v {
+                                Some(v) => eg.lookup(&Sym::B(v, y)).is_some(),
+                                None => false,
+                            }
+                        });
+                        // multi-pattern ?o == (b ?l ?r), ?l == (var S)
+                        // (the empty name cannot be written in the pattern syntax)
+                        let (n2, rs) = match MultiPattern::<Sym>::parse(&format!("?o == (b ?l ?r), ?l == (var {sp})")) {
+                            Ok(mp) if sp.to_string() != "$" => {
+                                let mms = multi_ematch(&mp, &eg);
+                                (mms.len(), mms.iter().flat_map(|m| m["r"].slots().into_iter()).collect::<Vec<Slot>>())
+                            }
+                            _ => (1, Vec::new()),
+                        };
+                        out.push((sp, ms.len(), ys, represented, n2, rs));
+                    }
+                    out
+                });
+                match r {
+                    Err(site) => fails.push(("panic".into(), "egraph match".into(), format!("{site}; sequence: {seq}"))),
+                    Ok(rows) => {
+                        for (sp, n1, ys, represented, n2, rs) in rows {
+                            if n1 != 1 || n2 != 1 {
+                                fails.push(("pattern-slot-spelling-matters".into(), format!("(b (var {sp}) ?y) has {n1} matches and ?o == (b ?l ?r), ?l == (var {sp}) has {n2} against the single term (b (var {a}) (var {b})); one each expected"), format!("sequence: {seq}")));
+                            }
+                            if !represented {
+                                fails.push(("internal-slot-captures-user-slot".into(), format!("match of (b (var {sp}) ?y) does not denote a represented term"), format!("sequence: {seq}")));
+                            }
+                            for y in ys.iter().chain(rs.iter()) {
+                                if *y == sp || known.contains(y) {
+                                    fails.push(("internal-slot-captures-user-slot".into(), format!("the slot invented for the uncovered position of a match equals the slot {y} that was already in use (pattern slot spelled {sp})"), format!("sequence: {seq}")));
+                                }
+                            }
+                        }
+                    }
+                }
+            }
             SOp::EgAdd => {
                 if order.len() < 2 || order[order.len() - 1] == order[order.len() - 2] {
                     continue;
@@ -225,13 +291,13 @@ impl Prop for SlotsProp {
         depths(tier).into_iter().map(|d| Seg { name: format!("sequences-of-length-{d}"), count: n.pow(d), what: format!("one index = one sequence of {d} slot operations from the {n}-operation alphabet, run in a fresh thread") }).collect()
     }
     fn goals(&self) -> Vec<&'static str> {
-        vec!["fresh_after_other_slots", "name_of_fresh_form_parsed", "egraph_internal_slots_checked"]
+        vec!["fresh_after_other_slots", "name_of_fresh_form_parsed", "egraph_internal_slots_checked", "match_with_pattern_slot_spelled_like_an_internal_slot"]
     }
     fn rule(&self) -> String {
-        format!("Every sequence (length <=4 quick, <=5 thorough) over the operations fresh, numeric(n) for n in {{0,1,2,2^30-1}}, named(s) for s in {:?}, parse(print(last slot)) and 'insert (f last prev) into a fresh e-graph' is executed in a fresh thread against a reference model (set of slots seen, map name->slot): fresh must be new and print as $f<k>; a name always denotes the same slot; two different names never denote the same slot; print->named and print->parse->print round-trip; class parameter slots invented by the e-graph are new. Non-trivial = sequence that constructs at least two slots.", NAMES)
+        format!("Every sequence (length <=4 quick, <=5 thorough) over the operations fresh, numeric(n) for n in {{0,1,2,2^30-1}}, named(s) for s in {:?}, parse(print(last slot)) and 'insert (f last prev) into a fresh e-graph' and 'match (b (var S) ?y) / ?o == (b ?l ?r), ?l == (var S) against (b (var last) (var prev)) with S spelled like each of the class's own slots' is executed in a fresh thread against a reference model (set of slots seen, map name->slot): fresh must be new and print as $f<k>; a name always denotes the same slot; two different names never denote the same slot; print->named and print->parse->print round-trip; class parameter slots invented by the e-graph are new. Non-trivial = sequence that constructs at least two slots.", NAMES)
     }
     fn assumptions(&self) -> Vec<String> {
-        vec!["numeric names >= 2^30 and f<n> names whose arithmetic overflows u32 are outside the stated quantifier and are not driven".into(), "the empty name cannot be written in the term syntax; it is only exercised through Slot::named".into()]
+        vec!["numerals at and beyond the encoding boundary (2^30) are driven since the fifth seed round (D18)".into(), "the empty name cannot be written in the term syntax; it is only exercised through Slot::named".into()]
     }
     fn describe(&self, tier: Tier, _cfg: &str, seg: usize, idx: u64) -> Value {
         let d = depths(tier)[seg];
